@@ -934,10 +934,10 @@ class Ctl(Harness):
           b_implies(succ, b_and(not isnan(rf), not isnan(rv))))
         # ---- C09 stopping requests -------------------------------------------------
         if all(v is not None for v in vvals):
-            tgt = o["target"]
+            tgt = o["target"] if o["target"] is not None else -INF      # the documented default
 
             def t_target(k):
-                if not has_fun or tgt is None:
+                if not has_fun:
                     return False
                 return b_and(lift(fvals[k]) <= tgt, lift(vvals[k]) <= tol)
 
@@ -961,7 +961,7 @@ class Ctl(Harness):
                   b_and(b_implies(st == 3, t_cb(k)), b_implies(st == 1, t_target(k)), b_implies(st == 4, t_feas(k))),
                   s=f"{sig}:st={st}")
                 C("C09", "returned_point_satisfies_the_request_that_ended_the_run",
-                  b_and(b_implies(st == 1, b_and(lift(rf) <= (tgt if tgt is not None else -INF), lift(rv) <= tol)),
+                  b_and(b_implies(st == 1, b_and(lift(rf) <= tgt, lift(rv) <= tol)),
                         b_implies(st == 4, lift(rv) <= tol)), s=f"{sig}:st={st}")
                 if st in (1, 3, 4):
                     goals.append("stop_at_eval_%d" % min(N, 4))
